@@ -847,7 +847,11 @@ impl File {
                 Stamp::from_metadata(&metadata)?,
             )),
             Err(e) => {
-                if e.kind() == io::ErrorKind::NotFound {
+                // ENOTDIR: a directory on the way has been replaced by a file.
+                // The name denotes nothing now, which is all "missing" means;
+                // treating it as an error would wedge every target that ever
+                // depended on something below that directory.
+                if e.kind() == io::ErrorKind::NotFound || e.raw_os_error() == Some(libc::ENOTDIR) {
                     Ok((false, Stamp::MISSING))
                 } else {
                     Err(RedoError::opaque_error(e))
